@@ -264,7 +264,7 @@ Lemma scaled_window_bounds : forall s, rx_ok s ->
   0 <= shl (tcp_scaled_window s) (s_remote_win_shift s) < 2 ^ 31 /\
   shr (shl (tcp_scaled_window s) (s_remote_win_shift s)) (s_remote_win_shift s) = tcp_scaled_window s.
 Proof.
-  intros s (Hsh & Hw & _). unfold tcp_scaled_window, shl, shr.
+  intros s (Hsh & Hw). unfold tcp_scaled_window, shl, shr.
   set (w := rb_window (s_rx_buffer s)) in *. set (n := s_remote_win_shift s) in *.
   assert (Hp : 0 < 2 ^ n) by (apply Z.pow_pos_nonneg; lia).
   assert (Hq : 0 <= w / 2 ^ n) by (apply Z.div_pos; lia).
@@ -403,8 +403,8 @@ Qed.
 
 Lemma rx_ok_frame : forall s2 s', fin_frame s2 s' -> rx_ok s2 -> rx_ok s'.
 Proof.
-  intros s2 s' (E1 & E2 & E3 & E4 & E5 & E6 & E7 & E8 & E9 & _) H. unfold rx_ok in *.
-  rewrite E5, E7, E9. exact H.
+  intros s2 s' (E1 & E2 & E3 & E4 & E5 & E6 & E7 & _) H. unfold rx_ok in *.
+  rewrite E5, E7. exact H.
 Qed.
 
 (* clearing the pending fast retransmission changes nothing else *)
